@@ -852,6 +852,10 @@ func (fc *FnCtx) doReturn(x *ssa.Return) {
 		if !ok {
 			continue
 		}
+		if fc.exitBound == nil {
+			fc.exitBound = map[int]bool{}
+		}
+		fc.exitBound[i] = true
 		fc.oblige("exit", cl.Label, f, x.Pos(), cl)
 	}
 }
